@@ -1,9 +1,9 @@
 """C14 - multi-file mode partitions types by crate and imports cross-crate references.
-Proof: Props/C14.v (28 theorems: partition = find_crate_name of the path, every file holds exactly the declarations of
+Proof: Props/C14.v (29 theorems: partition = find_crate_name of the path, every file holds exactly the declarations of
 its crate's sources, union over the files = the single-file run; imports sound unconditionally - an import names a
 TYPE of its module, never a const -, complete on dom_C14 = named references and references covered by a glob import,
-good_C14 holds of the model for every workspace and every iteration order, the pairs of used_imports do not depend on
-the iteration order of the import set; one witness per open finding class, one regression pin per class repaired in
+good_C14 holds of the model for every workspace and every iteration order, the import list used_imports builds does not
+depend on the iteration order of the import set (as a set of pairs and as a value); one witness per open finding class, one regression pin per class repaired in
 /repo: C14-glob, C14-glob-order, C14-glob-const).
 Correspondence, through the REAL BINARY with `-d`: generated workspaces of 1-5 crates (directory names with
 dashes / underscores / digits, files at depth 0-3 under <crate>/src, files outside any src, nested
@@ -732,7 +732,7 @@ def run(chk):
                 set_dep = any(texts[i] != texts[j] for i, j in ((0, 3), (0, 4), (2, 5), (2, 6)) if len(texts) > 6)
                 fallback_dep = len(texts) > 2 and texts[0] != texts[2]
                 if model_varies and (set_dep or not fallback_dep):
-                    chk.violation(tag, dict(payload, orders=[o for o, _ in variants]), 'the model output depends on an iteration order in a way that is not the fallback dependence (C14_imports_iteration_order_irrelevant)')
+                    chk.violation(tag, dict(payload, orders=[o for o, _ in variants]), 'the model output depends on an iteration order in a way that is not the fallback dependence (C14_import_list_order_irrelevant)')
                     continue
                 if fallback_dep:
                     if varying:
